@@ -7,7 +7,10 @@ From HV Require Export Base.Prelude C19.Model C19.Proofs.
 (** the repairs present in the tree the check runs against: all of them, since the
     `fix:` commits bac6229 b43bb0a f8fe9cb 7262936 c263a86 63a8b58 b504821 b69f65b
     (C19-F1 … F8) and 07a625c (C18-F2).  [no_fixes] is the pinned tree. *)
-Definition impl_fixes : fixes := all_fixes.
+Definition impl_fixes : fixes :=
+  {| fx1 := true; fx2 := true; fx3 := true; fx4 := true; fx5 := true; fx6 := true; fx7 := true; fx8 := true;
+     fx9 := false;    (* C19-F9 is open: fixes/C19-F9.diff *)
+     fx18 := true |}.
 
 Definition memn (l : list nat) (n : nat) : bool := existsb (Nat.eqb n) l.
 Definition mkc id pub subj iss aki ski :=
@@ -137,6 +140,22 @@ Definition rs_out_eqb (a b : rs_out) : bool :=
   | _, _ => false
   end.
 
+(** the input of C19-F9 inside a rule set: some step has config.assertions.scopes on which the decode hook panics *)
+Definition step_scopes_bad (impl : fixes) (st : step) : bool :=
+  match lookup "config" (s_map st) with
+  | Some (YMap c) => match lookup "assertions" c with
+                     | Some (YMap a) => match lookup "scopes" a with Some v => guard_F9 impl v | None => false end
+                     | _ => false
+                     end
+  | _ => false
+  end.
+
+Definition rules_scopes_bad (impl : fixes) (e : rs_event) : bool :=
+  match ev_parse e with
+  | PParsed rs => existsb (fun r => existsb (step_scopes_bad impl) (r_exec r)) rs
+  | _ => false
+  end.
+
 Definition check_rules (impl : fixes) (c : rscase) : verdict :=
   {| v_corr := rs_out_eqb (process impl (rs_proxy c) (rs_default c) (rs_pre c) (rs_ev c)) (rs_obs c);
      v_prop := match rs_obs c with
@@ -145,7 +164,11 @@ Definition check_rules (impl : fixes) (c : rscase) : verdict :=
                | RsExit _ => false
                end;
      v_guards := guards [(3%Z, guard_F3 impl (rs_proxy c) (rs_default c) (rs_ev c));
-                         (8%Z, guard_F8 impl (rs_proxy c) (rs_default c) (rs_ev c))] |}.
+                         (8%Z, match process impl (rs_proxy c) (rs_default c) [] (rs_ev c) with RsExit SDecode => true | _ => false end);
+                         (* a collaborator taken as data panicked: with the parser's key check (fx8) in place this is
+                            the scopes decode hook of C19-F9, whose repair changes the oracle's answer *)
+                         (9%Z, rules_scopes_bad impl (rs_ev c) &&
+                               match process impl (rs_proxy c) (rs_default c) [] (rs_ev c) with RsExit SMech => true | _ => false end)] |}.
 
 (** ** file-system provider stream *)
 Definition bits c w m r n := {| o_create := c; o_write := w; o_chmod := m; o_remove := r; o_rename := n |}.
@@ -207,8 +230,17 @@ Definition check_remote (impl : fixes) (c : rmcase) : verdict :=
      v_prop := match rm_expect c with Some false => negb (success final_status) | _ => true end;
      v_guards := [] |}.
 
+(** ** the scopes-matcher decode hook on list / map values *)
+Record scase := { sc_val : yv; sc_obs : res unit }.
+Definition scs v o := {| sc_val := v; sc_obs := o |}.
+Definition unit_eqb (a b : unit) : bool := true.
+Definition check_scopes (impl : fixes) (c : scase) : verdict :=
+  {| v_corr := res_eqb unit_eqb (decode_scopes impl (sc_val c)) (sc_obs c);
+     v_prop := negb (is_panic (sc_obs c));
+     v_guards := guards [(9%Z, guard_F9 impl (sc_val c))] |}.
+
 (** ** the streams without in-package access share one driver binary *)
-Inductive mcase := MK (c : kcase) | MT (c : tcase) | MQ (c : qcase) | MR (c : rmcase) | ME (c : rcase).
+Inductive mcase := MK (c : kcase) | MT (c : tcase) | MQ (c : qcase) | MR (c : rmcase) | ME (c : rcase) | MS (c : scase).
 Definition check_misc (impl : fixes) (c : mcase) : verdict :=
   match c with
   | MK c => check_ks impl c
@@ -216,4 +248,5 @@ Definition check_misc (impl : fixes) (c : mcase) : verdict :=
   | MQ c => check_req impl c
   | MR c => check_remote impl c
   | ME c => check_reload impl c     (* end-to-end through the real watcher, in a child process *)
+  | MS c => check_scopes impl c
   end.
